@@ -447,7 +447,7 @@ def check_C18(tier, seed):
 
 
 FMT_PLANS = ["ok", "slow", "fail_after_read", "slow_read", "fail_no_read", "empty", "ok_no_read", "ok_partial_read", "kill_no_read", "kill_after_read", "kill_mid_read",
-             "kill_mid_output", "term_after_read", "absent", "near_swap", "near_str_ws", "near_prefix", "near_twice", "near_source_ws", "near_field_swap", "near_swap_raw", "near_str_ws_raw", "near_twice_raw", "near_source_ws_raw"]
+             "kill_mid_output", "term_after_read", "absent", "near_swap", "near_str_ws", "near_prefix", "near_twice", "near_source_ws", "near_field_swap", "near_swap_raw", "near_str_ws_raw", "near_twice_raw", "near_source_ws_raw", "noexec", "isdir", "fail_utf8_cut", "kill_utf8_cut", "ok_utf8_cut"]
 
 
 def describe_fmt(case, events, matched):
@@ -470,7 +470,12 @@ def fmt_env():
     if not real:
         raise ToolError("no rustfmt on PATH")
     empty = os.path.join(WORK, "emptydir")
-    os.makedirs(empty, exist_ok=True)
+    os.makedirs(os.path.join(empty, "isdir", "rustfmt"), exist_ok=True)
+    os.makedirs(os.path.join(empty, "noexec"), exist_ok=True)
+    nx = os.path.join(empty, "noexec", "rustfmt")
+    if not os.path.exists(nx):
+        open(nx, "w").write("#!/bin/sh\ncat\n")
+    os.chmod(nx, 0o644)
     os.environ.update({"VERIF_STUB_DIR": os.path.join(HARNESS, "stubs"), "VERIF_EMPTY_DIR": empty, "VERIF_REAL_RUSTFMT": real})
 
 
@@ -491,7 +496,7 @@ def check_C19(tier, seed):
         for si, S in enumerate(shaders):
             for plan in FMT_PLANS:
                 for late in (False, True):
-                    if plan in ("ok", "slow", "absent") and late:
+                    if plan in ("ok", "slow", "absent", "noexec", "isdir") and late:
                         continue
                     cases.append({"id": "fmt-%s%d-%s%s" % (cls, si, plan, "-late" if late else ""), "family": "fmt-" + plan, "S": S,
                                   "opts": F.opts(rustfmt=True, enc=True, mv="glam"), "fmt_plan": plan, "fmt_late": late, "size_class": cls})
@@ -729,6 +734,7 @@ def check_C10(tier, seed):
                           "body": [{"k": "access", "g": "particles", "how": "load"}], "wg": []}]}
         for j, o in enumerate([F.opts(enc=True, mv="glam", bmv=True), F.opts(enc=True, mv="glam"), F.opts(enc=True, mv="glam", bmv=True, serde=True)]):
             cases.append({"id": "enc-both-%d-%d" % (i, j), "family": "encase-two-roles", "S": S, "opts": o})
+    drive_and_judge(rep, "C10", cases, "static", ["structs"], enforce="C10S")
     compiled_and_judge(rep, "C10", cases, "encase", "shim", {"encase"}, keep=["structs"])
     return finish(rep)
 
